@@ -83,9 +83,14 @@ def sat(s, x):
     return any(len(a) == 1 and sat(a[0], x) for _, a in s[1])
 
 
-def nested_ok(s):
-    """an arg.In used at one position: every alternative stands for one value"""
-    return s[0] != 'i' or all(len(a) == 1 and nested_ok(a[0]) for _, a in s[1])
+def nested_ok(s, kind=None):
+    """an arg.In used at one position: every alternative stands for one value (a bare []interface{} value — index 3 of the
+    interface domain — would be read as a tuple by goom's API, so it has to be written [3])"""
+    return s[0] != 'i' or all(len(a) == 1 and nested_ok(a[0], kind) and (tup or not bare_tuple(a[0], kind)) for tup, a in s[1])
+
+
+def bare_tuple(s, kind):
+    return kind == 'iface' and s == ('v', '3')
 
 
 def sat_tuple(specs, xs):
@@ -210,7 +215,7 @@ def walk(op):
                 wf = False
         elif kind == 'when':
             sp = [] if st[1] == '-' else plist(st[1] + ']', 0, ']')[0]
-            if pending is not None or not arity_ok(name, len(sp)) or not all(nested_ok(s) for s in sp):
+            if pending is not None or not arity_ok(name, len(sp)) or not all(nested_ok(s, kind_at(name, j)) for j, s in enumerate(sp)):
                 wf = False
             if first and not sp:
                 k1 = True           # K1: the first clause is When() without arguments
@@ -231,7 +236,9 @@ def walk(op):
                     alts.append(plist(a, 1, ']')[0])
                 else:
                     alts.append([pspec(a, 0)[0]])
-                if not arity_ok(name, len(alts[-1])) or not all(nested_ok(s) for s in alts[-1]):
+                    if bare_tuple(alts[-1][0], kind_at(name, 0)):
+                        wf = False
+                if not arity_ok(name, len(alts[-1])) or not all(nested_ok(s, kind_at(name, j)) for j, s in enumerate(alts[-1])):
                     wf = False
             pending = ('in', alts)
         elif kind == 'matches' and not first and o >= 1:
@@ -240,7 +247,9 @@ def walk(op):
             for pr in st[1:]:
                 a, _, kk = pr.rpartition('=')
                 sp = plist(a, 1, ']')[0] if a.startswith('[') else [pspec(a, 0)[0]]
-                if not arity_ok(name, len(sp)) or not all(nested_ok(s) for s in sp):
+                if not a.startswith('[') and bare_tuple(sp[0], kind_at(name, 0)):
+                    wf = False
+                if not arity_ok(name, len(sp)) or not all(nested_ok(s, kind_at(name, j)) for j, s in enumerate(sp)):
                     wf = False
                 conds.append((('when', sp), int(kk)))
         else:
@@ -438,7 +447,10 @@ class Gen:
                 elif extra == 2 and o >= 1:
                     steps.append(['returns', str(rid), str(rid + 1)])
                 elif extra == 3 and o >= 1:
-                    steps.append(['matches', f'{show_spec(self.spec(kind_at(name, 0)))}={rid}'])
+                    bs = self.spec(kind_at(name, 0))
+                    if kind_at(name, 0) == 'iface' and bs == ('v', '3'):
+                        bs = ('*',)     # a bare []interface{} as Pair.Args IS a tuple for goom
+                    steps.append(['matches', f'{show_spec(bs)}={rid}'])
                 else:
                     steps.append(['retx', str(rid), str(self.r.below(4))])
                 rid += 2
